@@ -1,6 +1,8 @@
 (** Proofs of the quantizer properties C07 and C08 (statements in Props/C07.v, Props/C08.v).
     The integer search is in Proofs/QuantScan.v, the input path in Proofs/QuantFloat.v. *)
-From Coq Require Import ZArith Lia Bool List Reals Lra.
+From Coq Require Import ZArith Bool List Reals Lra.
+(* exported: the Example in Props/C08.v closes [valid_mask 8] with [lia] *)
+From Coq Require Export Lia.
 Import ListNotations.
 From Flocq Require Import Core IEEE754.BinarySingleNaN.
 From SU Require Import F32 F32Lemmas.
@@ -216,7 +218,8 @@ Proof.
     + apply fle_true in Hle; try assumption.
       rewrite (clamp_vin_fin x Fx), (clamp_vin_fin y Fy).
       unfold Rmin, Rmax.
-      repeat match goal with |- context [Rle_dec ?a ?b] => destruct (Rle_dec a b) end; try lra. all: idtac "HERE"; match goal with |- ?g => idtac g end; try match goal with H : _ |- _ => idtac H; fail end. Show.
+      destruct (Rle_dec (R32 x) 0), (Rle_dec (R32 y) 0);
+        repeat match goal with |- context [Rle_dec ?a ?b] => destruct (Rle_dec a b) end; lra.
 Qed.
 
 Lemma nearest_note_mono : forall a x y,
